@@ -181,4 +181,292 @@ theorem assignVoices_perm (notes : List NoteIn) (hnd : (notes.map (·.idx)).Nodu
   refine (removeLoop_perm _ _ [] hnd').trans ?_
   simpa using hp
 
+/-! ### new voices are fresh and hold no two overlapping notes -/
+
+/-- two notes do not sound at the same time -/
+def NonOverlap (a b : NoteIn) : Prop := ¬ (a.onset < b.onset + b.dur ∧ b.onset < a.onset + a.dur)
+
+theorem foldl_free_ge (spans : List Span) (s e init : Nat) :
+    init ≤ spans.foldl (fun fv sp => if sp.overlaps s e then max fv (sp.voice + 1) else fv) init := by
+  induction spans generalizing init with
+  | nil => simp
+  | cons sp rest ih =>
+    simp only [List.foldl_cons]
+    refine Nat.le_trans ?_ (ih _)
+    split
+    · exact Nat.le_max_left _ _
+    · exact Nat.le_refl _
+
+theorem foldl_free_gt (spans : List Span) (s e init : Nat) :
+    ∀ sp ∈ spans, sp.overlaps s e = true →
+      sp.voice < spans.foldl (fun fv sp => if sp.overlaps s e then max fv (sp.voice + 1) else fv) init := by
+  induction spans generalizing init with
+  | nil => intro sp h; cases h
+  | cons sp0 rest ih =>
+    intro sp hsp hov
+    simp only [List.foldl_cons]
+    rcases List.mem_cons.mp hsp with rfl | hsp
+    · simp only [hov, if_true]
+      have h1 := foldl_free_ge rest s e (max init (sp.voice + 1))
+      have h2 : sp.voice + 1 ≤ max init (sp.voice + 1) := Nat.le_max_right _ _
+      omega
+    · exact ih _ sp hsp hov
+
+theorem foldl_min_ge (l : List Span) (base init : Nat) (h0 : base ≤ init) (h : ∀ sp ∈ l, base ≤ sp.voice) :
+    base ≤ l.foldl (fun m x => min m x.voice) init := by
+  induction l generalizing init with
+  | nil => simpa
+  | cons sp rest ih =>
+    simp only [List.foldl_cons]
+    apply ih
+    · have := h sp (List.mem_cons_self ..); omega
+    · exact fun sp' h' => h sp' (List.mem_cons_of_mem _ h')
+
+theorem minVoice_ge (spans : List Span) (base : Nat) (hne : spans ≠ []) (h : ∀ sp ∈ spans, base ≤ sp.voice) :
+    base ≤ minVoice spans := by
+  cases spans with
+  | nil => exact absurd rfl hne
+  | cons sp rest =>
+    exact foldl_min_ge rest base sp.voice (h sp (List.mem_cons_self ..)) (fun sp' h' => h sp' (List.mem_cons_of_mem _ h'))
+
+theorem findFreeVoice_gt_base (spans : List Span) (base s e : Nat) (hne : spans ≠ [])
+    (h : ∀ sp ∈ spans, base ≤ sp.voice) : base < findFreeVoice spans s e := by
+  unfold findFreeVoice
+  have := foldl_free_ge spans s e (minVoice spans + 1)
+  have := minVoice_ge spans base hne h
+  omega
+
+theorem findFreeVoice_gt_overlap (spans : List Span) (s e : Nat) :
+    ∀ sp ∈ spans, sp.overlaps s e = true → sp.voice < findFreeVoice spans s e :=
+  foldl_free_gt spans s e _
+
+/-- the state of `remove_voice_polyphony` between two notes: every span is above the base voice, every moved
+    note sits in a voice above the base together with its span, and the notes of a new voice do not overlap -/
+structure ExInv (base : Nat) (spans : List Span) (ex : List (Nat × List NoteIn)) : Prop where
+  ne : spans ≠ []
+  ge : ∀ sp ∈ spans, base ≤ sp.voice
+  fresh : ∀ vn ∈ ex, base < vn.1
+  apart : ∀ vn ∈ ex, vn.2.Pairwise NonOverlap
+  span : ∀ vn ∈ ex, ∀ m ∈ vn.2, Span.iv m.onset (m.onset + m.dur) vn.1 ∈ spans
+
+theorem mem_addTo {ex : List (Nat × List NoteIn)} {v : Nat} {n : NoteIn} {vn : Nat × List NoteIn}
+    (h : vn ∈ addTo ex v n) :
+    vn ∈ ex ∨ (vn.1 = v ∧ ((∃ ms, (v, ms) ∈ ex ∧ vn.2 = ms ++ [n]) ∨ vn.2 = [n])) := by
+  induction ex with
+  | nil => simp [addTo] at h; subst h; exact Or.inr ⟨rfl, Or.inr rfl⟩
+  | cons e rest ih =>
+    obtain ⟨w, ns⟩ := e
+    unfold addTo at h
+    by_cases hw : w = v
+    · simp only [hw, if_true, List.mem_cons] at h
+      rcases h with h | h
+      · subst h; subst hw
+        exact Or.inr ⟨rfl, Or.inl ⟨ns, List.mem_cons_self .., rfl⟩⟩
+      · exact Or.inl (List.mem_cons_of_mem _ h)
+    · simp only [hw, if_false, List.mem_cons] at h
+      rcases h with h | h
+      · subst h; exact Or.inl (List.mem_cons_self ..)
+      · rcases ih h with h' | ⟨h1, h2⟩
+        · exact Or.inl (List.mem_cons_of_mem _ h')
+        · refine Or.inr ⟨h1, ?_⟩
+          rcases h2 with ⟨ms, hms, e⟩ | e
+          · exact Or.inl ⟨ms, List.mem_cons_of_mem _ hms, e⟩
+          · exact Or.inr e
+
+theorem exInv_step {base : Nat} {spans : List Span} {ex : List (Nat × List NoteIn)} (h : ExInv base spans ex)
+    (n : NoteIn) :
+    ExInv base (spans ++ [Span.iv n.onset (n.onset + n.dur) (findFreeVoice spans n.onset (n.onset + n.dur))])
+      (addTo ex (findFreeVoice spans n.onset (n.onset + n.dur)) n) := by
+  have hfv := findFreeVoice_gt_base spans base n.onset (n.onset + n.dur) h.ne h.ge
+  have hov := findFreeVoice_gt_overlap spans n.onset (n.onset + n.dur)
+  -- a note already in the voice chosen for `n` does not overlap `n`
+  have hapart : ∀ ms, (findFreeVoice spans n.onset (n.onset + n.dur), ms) ∈ ex → ∀ m ∈ ms, NonOverlap m n := by
+    intro ms hms m hm
+    have hsp := h.span _ hms m hm
+    intro hcon
+    have := hov _ hsp (by simp [Span.overlaps]; exact hcon)
+    simp [Span.voice] at this
+  refine ⟨by simp, ?_, ?_, ?_, ?_⟩
+  · intro sp hsp
+    rcases List.mem_append.mp hsp with hsp | hsp
+    · exact h.ge sp hsp
+    · simp at hsp; subst hsp; simp [Span.voice]; omega
+  · intro vn hvn
+    rcases mem_addTo hvn with hvn | ⟨h1, _⟩
+    · exact h.fresh vn hvn
+    · rw [h1]; exact hfv
+  · intro vn hvn
+    rcases mem_addTo hvn with hvn | ⟨h1, h2⟩
+    · exact h.apart vn hvn
+    · rcases h2 with ⟨ms, hms, e⟩ | e
+      · rw [e, List.pairwise_append]
+        exact ⟨h.apart _ hms, by simp, fun a ha b hb => by simp at hb; subst hb; exact hapart ms hms a ha⟩
+      · rw [e]; simp
+  · intro vn hvn m hm
+    rcases mem_addTo hvn with hvn | ⟨h1, h2⟩
+    · exact List.mem_append_left _ (h.span vn hvn m hm)
+    · rcases h2 with ⟨ms, hms, e⟩ | e
+      · rw [e] at hm
+        rcases List.mem_append.mp hm with hm | hm
+        · rw [h1]; exact List.mem_append_left _ (h.span _ hms m hm)
+        · simp at hm; subst hm; rw [h1]; simp
+      · rw [e] at hm; simp at hm; subst hm; rw [h1]; simp
+
+theorem exInv_assignMovers {base : Nat} (ms : List NoteIn) {spans : List Span} {ex : List (Nat × List NoteIn)}
+    (h : ExInv base spans ex) : ExInv base (assignMovers spans ex ms).1 (assignMovers spans ex ms).2 := by
+  induction ms generalizing spans ex with
+  | nil => exact h
+  | cons n rest ih => exact ih (exInv_step h n)
+
+theorem removeSingle_spans (ns : List NoteIn) (spans : List Span) (ex : List (Nat × List NoteIn)) :
+    (removeSingle ns spans ex).2.1 =
+      (assignMovers (assignMovers spans ex (movers1 ns)).1 (assignMovers spans ex (movers1 ns)).2
+        (movers2 (removeAll ns (movers1 ns)))).1 := rfl
+
+theorem exInv_removeSingle {base : Nat} (ns : List NoteIn) {spans : List Span} {ex : List (Nat × List NoteIn)}
+    (h : ExInv base spans ex) : ExInv base (removeSingle ns spans ex).2.1 (removeSingle ns spans ex).2.2 := by
+  rw [removeSingle_spans, removeSingle_ex]
+  exact exInv_assignMovers _ (exInv_assignMovers _ h)
+
+theorem exInv_removeLoop {base : Nat} (p : List (Nat × List NoteIn)) {spans : List Span}
+    {ex : List (Nat × List NoteIn)} (h : ExInv base spans ex) :
+    ExInv base (removeLoop spans ex p).2.1 (removeLoop spans ex p).2.2 := by
+  induction p generalizing spans ex with
+  | nil => exact h
+  | cons vn rest ih =>
+    obtain ⟨v, ns⟩ := vn
+    rw [removeLoop_cons]
+    exact ih (exInv_removeSingle ns h)
+
+/-- every voice `remove_voice_polyphony` opens is above all voices in use and holds no two notes that sound
+    together -/
+theorem new_voices_fresh (notes : List NoteIn) :
+    ∀ vn ∈ (removeLoop [Span.all (maxVoice (partitionVoices notes))] [] (partitionVoices notes)).2.2,
+      maxVoice (partitionVoices notes) < vn.1 ∧ vn.2.Pairwise NonOverlap := by
+  have h0 : ExInv (maxVoice (partitionVoices notes)) [Span.all (maxVoice (partitionVoices notes))] [] :=
+    { ne := by simp
+      ge := by intro sp hsp; simp at hsp; subst hsp; simp [Span.voice]
+      fresh := by intro vn h; cases h
+      apart := by intro vn h; cases h
+      span := by intro vn h; cases h }
+  have h := exInv_removeLoop (partitionVoices notes) h0
+  exact fun vn hvn => ⟨h.fresh vn hvn, h.apart vn hvn⟩
+
+/-! ### the voices that stay are monophonic -/
+
+/-- what a MusicXML voice can hold without `<backup>`: the non-grace notes of one onset have one duration
+    (a chord), and no note runs past the next onset -/
+def Monophonic (ns : List NoteIn) : Prop :=
+  (∀ a ∈ ns, ∀ b ∈ ns, a.grace = false → b.grace = false → a.onset = b.onset → a.dur = b.dur) ∧
+  (∀ a ∈ ns, ∀ b ∈ ns, a.onset < b.onset → a.onset + a.dur ≤ b.onset)
+
+theorem min?_some_of_mem {l : List Nat} {x : Nat} (h : x ∈ l) : ∃ d, l.min? = some d ∧ d ≤ x ∧ ∀ y ∈ l, d ≤ y := by
+  cases hm : l.min? with
+  | none => rw [List.min?_eq_none_iff] at hm; subst hm; cases h
+  | some d =>
+    have := List.min?_eq_some_iff.mp hm
+    exact ⟨d, rfl, this.2 x h, this.2⟩
+
+theorem removeSingle_monophonic (ns : List NoteIn) (spans : List Span) (ex : List (Nat × List NoteIn))
+    (hnd : (ns.map (·.idx)).Nodup) : Monophonic (removeSingle ns spans ex).1 := by
+  rw [removeSingle_fst]
+  have h1 := removeAll_eq_filter _ hnd (movers1_perm ns)
+  have hnd1 : ((removeAll ns (movers1 ns)).map (·.idx)).Nodup := by rw [h1]; exact nodup_filter_idx _ hnd
+  have h2 := removeAll_eq_filter _ hnd1 (movers2_perm (removeAll ns (movers1 ns)))
+  rw [h2]
+  generalize hk : removeAll ns (movers1 ns) = kept1 at *
+  constructor
+  · -- one duration per onset
+    intro a ha b hb hga hgb hon
+    have key : ∀ x ∈ kept1, x.grace = false → x.onset = a.onset →
+        ∃ d, chordDur ns a.onset = some d ∧ x.dur = d := by
+      intro x hx hgx hxo
+      rw [h1] at hx
+      obtain ⟨hxns, hq⟩ := List.mem_filter.mp hx
+      have hmem : x.dur ∈ (ns.filter fun n => !n.grace && n.onset == a.onset).map (·.dur) :=
+        List.mem_map.mpr ⟨x, List.mem_filter.mpr ⟨hxns, by simp [hgx, hxo]⟩, rfl⟩
+      obtain ⟨d, hd, hle, _⟩ := min?_some_of_mem hmem
+      refine ⟨d, hd, ?_⟩
+      have hd' : chordDur ns x.onset = some d := by rw [hxo]; exact hd
+      simp only [hgx, Bool.not_false, Bool.true_and, hd', Bool.not_eq_true', decide_eq_false_iff_not] at hq
+      omega
+    obtain ⟨da, hda, ea⟩ := key a (List.mem_filter.mp ha).1 hga rfl
+    obtain ⟨db, hdb, eb⟩ := key b (List.mem_filter.mp hb).1 hgb hon.symm
+    rw [hda] at hdb
+    cases hdb
+    omega
+  · -- no note runs past the next onset
+    intro a ha b hb hlt
+    obtain ⟨hak, hq⟩ := List.mem_filter.mp ha
+    have hbk := (List.mem_filter.mp hb).1
+    have hmem : b.onset ∈ (kept1.filter fun n => decide (a.onset < n.onset)).map (·.onset) :=
+      List.mem_map.mpr ⟨b, List.mem_filter.mpr ⟨hbk, by simp [hlt]⟩, rfl⟩
+    obtain ⟨o2, ho2, hle, _⟩ := min?_some_of_mem hmem
+    have : nextOnset kept1 a.onset = some o2 := ho2
+    simp only [this, Bool.not_eq_true', decide_eq_false_iff_not] at hq
+    omega
+
+theorem removeSingle_subset (ns : List NoteIn) (spans : List Span) (ex : List (Nat × List NoteIn)) :
+    ∀ n ∈ (removeSingle ns spans ex).1, n ∈ ns := by
+  intro n hn
+  rw [removeSingle_fst] at hn
+  unfold removeAll at hn
+  exact (List.mem_filter.mp (List.mem_filter.mp hn).1).1
+
+/-- the voices that were there before: same number, a part of their notes, monophonic -/
+theorem kept_voices (p : List (Nat × List NoteIn)) (spans : List Span) (ex : List (Nat × List NoteIn))
+    (hnd : ∀ vn ∈ p, (vn.2.map (·.idx)).Nodup) :
+    ∀ vn ∈ (removeLoop spans ex p).1, Monophonic vn.2 ∧ ∃ ns, (vn.1, ns) ∈ p ∧ ∀ n ∈ vn.2, n ∈ ns := by
+  induction p generalizing spans ex with
+  | nil => intro vn h; simp [removeLoop] at h
+  | cons e rest ih =>
+    obtain ⟨v, ns⟩ := e
+    rw [removeLoop_cons]
+    intro vn hvn
+    rcases List.mem_cons.mp hvn with h | h
+    · subst h
+      exact ⟨removeSingle_monophonic ns spans ex (hnd (v, ns) (List.mem_cons_self ..)),
+        ns, List.mem_cons_self .., removeSingle_subset ns spans ex⟩
+    · obtain ⟨hm, ns', hns', hsub⟩ := ih _ _ (fun vn h => hnd vn (List.mem_cons_of_mem _ h)) vn h
+      exact ⟨hm, ns', List.mem_cons_of_mem _ hns', hsub⟩
+
+theorem le_foldl_max (p : List (Nat × List NoteIn)) (init : Nat) :
+    init ≤ p.foldl (fun m e => max m e.1) init ∧ ∀ e ∈ p, e.1 ≤ p.foldl (fun m e => max m e.1) init := by
+  induction p generalizing init with
+  | nil => simp
+  | cons e rest ih =>
+    simp only [List.foldl_cons]
+    obtain ⟨h1, h2⟩ := ih (max init e.1)
+    refine ⟨Nat.le_trans (Nat.le_max_left _ _) h1, ?_⟩
+    intro e' he'
+    rcases List.mem_cons.mp he' with rfl | he'
+    · exact Nat.le_trans (Nat.le_max_right _ _) h1
+    · exact h2 e' he'
+
+theorem le_maxVoice {p : List (Nat × List NoteIn)} {e : Nat × List NoteIn} (h : e ∈ p) : e.1 ≤ maxVoice p :=
+  (le_foldl_max p 0).2 e h
+
+/-- the notes of a voice of `partition` all carry that voice -/
+theorem partition_voice (notes : List NoteIn) :
+    ∀ vn ∈ partitionVoices notes, ∀ n ∈ vn.2, n.voice = vn.1 := by
+  unfold partitionVoices
+  suffices h : ∀ (acc : List (Nat × List NoteIn)), (∀ vn ∈ acc, ∀ n ∈ vn.2, n.voice = vn.1) →
+      ∀ vn ∈ notes.foldl (fun acc n => addTo acc n.voice n) acc, ∀ n ∈ vn.2, n.voice = vn.1 from
+    h [] (by intro vn h; cases h)
+  induction notes with
+  | nil => intro acc h; exact h
+  | cons n rest ih =>
+    intro acc hacc
+    simp only [List.foldl_cons]
+    apply ih
+    intro vn hvn m hm
+    rcases mem_addTo hvn with hvn | ⟨h1, h2⟩
+    · exact hacc vn hvn m hm
+    · rcases h2 with ⟨ms, hms, e⟩ | e
+      · rw [e] at hm
+        rcases List.mem_append.mp hm with hm | hm
+        · rw [h1]; exact hacc _ hms m hm
+        · simp at hm; subst hm; exact h1.symm
+      · rw [e] at hm; simp at hm; subst hm; exact h1.symm
+
 end C03.Voices
